@@ -327,4 +327,83 @@ theorem run_err_of_plain_prefix (P : Params) (pre s : PStr) (hpre : ∀ x ∈ pr
   unfold run
   simp only [hg]
 
+/-! ### the pipeline -/
+
+theorem feedClose_rejected_iff (c : PCfg) (text : PStr) : feedClose c text = .rejected ↔ (run c.tp text).flag = .err := by
+  simp only [feedClose]
+  cases (run c.tp text).flag <;> simp
+
+theorem feedClose_tree_iff (c : PCfg) (text : PStr) (docs : List Builder.Doc) (infos : List Adapter.StartInfo) :
+    feedClose c text = .tree docs infos ↔
+      (run c.tp text).flag = .ok ∧ docs = Builder.build c.bcfg (eventsOf c text) ∧
+        infos = (Adapter.toEvents c.acfg (callbacks (run c.tp text))).2 := by
+  simp only [feedClose, eventsOf, Adapter.adapterBuild]
+  cases (run c.tp text).flag <;> simp [eq_comm]
+
+theorem feedClose_not_outOfFuel (c : PCfg) (text : PStr) : feedClose c text ≠ .outOfFuel := by
+  have := run_not_stuck c.tp text
+  simp only [feedClose]
+  cases hf : (run c.tp text).flag <;> simp_all
+
+/-! ### the tokenizer model as the tokenizer primitives of the envelope model -/
+open BS.Construct
+
+theorem phaseOf_raises (o : Out) (hns : o.flag ≠ .stuck) (c : Err) (h : (phaseOf o).2 = some c) :
+    c = .assertionError ∧ o.flag = .err := by
+  simp only [phaseOf] at h
+  cases hf : o.flag with
+  | ok => simp [hf] at h
+  | err => simp only [hf, Option.some.injEq] at h; exact ⟨h.symm, rfl⟩
+  | stuck => exact absurd hf hns
+
+/-- both phases of the tokenizer model raise nothing but `AssertionError` -/
+theorem tokModel_raises (tp : Params) (text : PStr) (c : Err) :
+    ((tokFeedModel tp text).2 = some c → c = .assertionError) ∧ ((tokCloseModel tp text).2 = some c → c = .assertionError) :=
+  ⟨fun h => (phaseOf_raises _ (goahead_not_stuck tp false _) c h).1,
+   fun h => (phaseOf_raises _ (goahead_not_stuck tp true _) c h).1⟩
+
+/-- replacing the two tokenizer primitives by the tokenizer model keeps the primitives within any recorded kinds that
+    list `AssertionError` for the tokenizer -/
+theorem withTokenizer_within {V : Type} (P : Prims V) (r : Recorded) (hP : P.Within r) (tp : Params)
+    (ha : Err.assertionError ∈ r.tokenizer) : (withTokenizer P tp).Within r where
+  warn := hP.warn
+  cands := hP.cands
+  lookup := hP.lookup
+  decode := hP.decode
+  logWarning := hP.logWarning
+  declaredProp := hP.declaredProp
+  resetAll := hP.resetAll
+  newParser := hP.newParser
+  tokFeed s c h := by rw [(tokModel_raises tp s c).1 h]; exact ha
+  tokClose s c h := by rw [(tokModel_raises tp s c).2 h]; exact ha
+  intDec := hP.intDec
+  intHex := hP.intHex
+  dec1 := hP.dec1
+  dec1252 := hP.dec1252
+  chrOf := hP.chrOf
+  applyData := hP.applyData
+  applyOther := hP.applyOther
+  endOfInput := hP.endOfInput
+
+/-- the two phases are the run: `feed` then (if it returned) `close` deliver the run's callbacks in order, and the run
+    is rejected exactly when one of the phases raises -/
+theorem phases_are_run (tp : Params) (text : PStr) :
+    ((tokFeedModel tp text).2 = none →
+        (tokFeedModel tp text).1 ++ (tokCloseModel tp text).1 = (run tp text).evs.filterMap toEvent ∧
+        ((tokCloseModel tp text).2 = some .assertionError ↔ (run tp text).flag = .err)) ∧
+    ((tokFeedModel tp text).2 ≠ none →
+        (tokFeedModel tp text).1 = (run tp text).evs.filterMap toEvent ∧ (run tp text).flag = .err) := by
+  have hns := goahead_not_stuck tp false (init text)
+  have hns2 := goahead_not_stuck tp true (goahead tp false (init text)).st
+  simp only [tokFeedModel, tokCloseModel, phaseOf, run]
+  cases hf : (goahead tp false (init text)).flag with
+  | stuck => exact absurd hf hns
+  | err => simp [hf]
+  | ok =>
+    simp only [List.filterMap_append, true_and, ne_eq, not_true_eq_false, false_implies, and_true, forall_const]
+    cases hf2 : (goahead tp true (goahead tp false (init text)).st).flag with
+    | stuck => exact absurd hf2 hns2
+    | err => simp
+    | ok => simp
+
 end BS.EnvelopeTokenizer
